@@ -100,6 +100,14 @@ def run(rep, tier):
                 nontrivial=(chr(c) in '|"\'#:<>~' or chr(c).isalnum()))
     rule_recursion(rep)
     rule_peephole_bounds(rep, idx)
+    from .. import report as _report
+    from . import c14, c11
+    rep.rule('R12', '"reports a diagnostic and emits nothing": output files are opened only by the designated writer, and nothing can be '
+             'rejected once the output file exists (import of C14-R4, with its re-verified exemptions)', floor=3)
+    c14.rule_r4(_report.Import(rep, 'R12', 'C14'), {tu: cast.load(tu) for tu in c14.MAINS})
+    rep.rule('R13', 'no use of an uninitialised frame pointer or stack offset: every symbol with a scope gets its frame and stack offset on '
+             'every path before code generation reads them (import of the C11 protocols frame-set / offset-assigned)', floor=2)
+    c11.run(_report.Import(rep, 'R13', 'C11', only_rules={'R1'}, key_filter=lambda r, k: 'protocol:frame-set' in k or 'protocol:offset-assigned' in k), tier)
     if tier == 'thorough':
         import itertools
         reps = [0x20, 0x0A, 0x23, 0x7C, 0x22, 0x27, 0x5C, 0x61, 0x30, 0x2D, 0x3A, 0x3C, 0x7E, 0x3D, 0x80, 0xFF]
